@@ -12,6 +12,7 @@ import (
 type vfsFileInfo struct {
 	name string
 	dir  bool
+	link bool // a symbolic link (Walk uses Lstat, so links are reported as links)
 }
 
 func (f vfsFileInfo) Name() string { return f.name }
@@ -19,6 +20,9 @@ func (f vfsFileInfo) Size() int64  { return 0 }
 func (f vfsFileInfo) Mode() fs.FileMode {
 	if f.dir {
 		return fs.ModeDir | 0o755
+	}
+	if f.link {
+		return fs.ModeSymlink | 0o777
 	}
 	return 0o644
 }
